@@ -14,3 +14,11 @@ chk("C15", "E1-sched", "exploration",
     "All interleavings (preemption-bounded) of 2-4 concurrent batches whose key lists are ordered selections from a shared key set, in lock-only mode (approve-all rules) and with the real rules and store; a state with unfinished threads and no enabled thread is a deadlock, detected exactly because the shim is the mutex.",
     "Trusted: as C04. The sustained-random-load clause of the property is not decided (sampling).",
     "stateless preemption-bounded schedule enumeration with exact deadlock detection", "5/C15, Appendix A")
+chk("C09", "E3-bfs", "model_checking",
+    "BFS over well-formed histories (attestations, proposals, distinct-key batches, restart) on the real stack; on every transition the sequential specification, computed from the signatures actually released, is compared in the completeness direction (specification approves => Dirk signed); every batch is re-run one entry at a time in every order on a replay of the same state (differential oracle); util.Scatter's partition and the batch signer are enumerated over (n, GOMAXPROCS) grids.",
+    "Trusted: as C01; batch sizes beyond the grid and GOMAXPROCS beyond 16/32 are not covered.",
+    "explicit-state BFS with lock-step reference model + differential batch/serial oracle + exhaustive (n, procs) grids", "5/C09")
+chk("C11", "E3-bfs", "model_checking",
+    "Every distinct state reached by a bounded BFS of well-formed histories is exported with the real CLI binary (exactness against the released maxima), re-imported by the real CLI into an empty directory, and compared on an ascending probe sequence with the restarted original and a never-restarted replay; old-format gob records of boundary values are planted and compared with current-format records.",
+    "Trusted: the ascending probe sequence identifies a watermark state inside the probe alphabet; values outside the alphabets behave like neighbours.",
+    "explicit-state BFS + differential oracle through the real CLI binary", "5/C11")
